@@ -29,21 +29,63 @@ ERRC = {"IndexError": 1, "ValueError": 2, "TypeError": 3, "CanvasError": 5, "Run
 POP_WH = (5, 3)
 
 
+# ---- double-byte encodings (urwid's "wide" byte encoding): one column per byte, a two-byte character is a
+# double-width character.  Narrow characters are ASCII (many of them lie in the trail-byte range 0x40..0x7e);
+# the double-width pool of each encoding holds, for every boundary of the trail-byte ranges the codec uses,
+# the first CJK / Hangul character with that trail byte.
+DB_ENCODINGS = ("big5", "gbk", "uhc", "euc-kr", "gb2312", "euc-jp")
+DB_NARROW = "abcxyz .-q@A[\\]^_`{|}~"
+TRAIL_CLASSES = (0x40, 0x41, 0x5A, 0x5B, 0x5C, 0x60, 0x61, 0x7A, 0x7B, 0x7C, 0x7D, 0x7E, 0x80, 0x81, 0xA0, 0xA1, 0xA2, 0xFD, 0xFE)
+
+
+def _db_pools():
+    pools = {}
+    for enc in DB_ENCODINGS:
+        first = {}
+        for cp in list(range(0x4E00, 0xA000)) + list(range(0xAC00, 0xD7A4)):
+            try:
+                b = chr(cp).encode(enc)
+            except UnicodeEncodeError:
+                continue
+            if len(b) == 2 and b[0] >= 0x81 and b[1] not in first:
+                first[b[1]] = chr(cp)
+        pools[enc] = "".join(first[t] for t in TRAIL_CLASSES if t in first)
+    return pools
+
+
+DB_WIDE = _db_pools()
+ALL_WIDE = frozenset(WIDE + "".join(DB_WIDE.values()))
+
+
 def chw(ch):
     if ch in ZERO:
         return 0
-    if ch in WIDE:
+    if ch in ALL_WIDE:
         return 2
     return 1
 
 
+# attribute ids: 0 = None (the default attribute), 8 = the integer 0 and 9 = the empty string (two more attribute
+# values that are falsy in Python), any other n = the string "a<n>"
 def attr_py(a):
-    return None if a == 0 else "a%d" % a
+    if a == 0:
+        return None
+    if a == 8:
+        return 0
+    if a == 9:
+        return ""
+    return "a%d" % a
 
 
 def attr_id(a):
     if a is None:
         return 0
+    if isinstance(a, bool):
+        return -1
+    if isinstance(a, int) and a == 0:
+        return 8
+    if isinstance(a, str) and a == "":
+        return 9
     if isinstance(a, str) and re.fullmatch(r"a\d+", a):
         return int(a[1:])
     return -1
@@ -114,11 +156,11 @@ def program(case):
 
 
 # ---------------------------------------------------------------- cells of an implementation row
-def cells_of_row(row):
+def cells_of_row(row, enc="utf-8"):
     out = []
     for a, cs, bs in row:
         try:
-            s = bs.decode("utf-8")
+            s = bs.decode(enc)
         except UnicodeDecodeError:
             out.append([9, attr_id(a), CSR.get(cs, -1), bs.hex()])
             continue
@@ -189,12 +231,13 @@ class C02(core.Check):
         if spec["t"] == "solid":
             return C.SolidCanvas(spec["ch"], spec["cols"], spec["rows"])
         text, attr, cs = [], [], []
+        spec_enc = getattr(self, "_enc", "utf-8")
         mode = spec.get("mode", 0)
         for cells in spec["rows"]:
             bs = b""
             al, cl = [], []
             for n, (a, c, ch) in enumerate(cells):
-                b = ch.encode("utf-8")
+                b = ch.encode(spec_enc)
                 bs += b
                 for lst, val in ((al, attr_py(a)), (cl, CS[c])):
                     merge = lst and lst[-1][0] == val and (mode == 0 or (mode == 2 and n % 2 == 1))
@@ -261,16 +304,29 @@ class C02(core.Check):
             o["popup"] = [p[0], p[1], wid]
         o["fin"] = 1 if (comp and v.widget_info) else 0
         try:
-            o["content"] = [cells_of_row(r) for r in v.content()]
+            o["content"] = [cells_of_row(r, self._enc) for r in v.content()]
         except Exception as e:
             o["content"] = {"err": errcode(e)}
         o["shards"] = self._shards(v) if comp else []
         return o
 
+    _enc = "utf-8"
+
     def run_impl(self, case):
         import urwid
+        enc = case.get("enc", "utf-8")
+        if enc != "utf-8" and enc not in DB_ENCODINGS:
+            raise core.MachineryError("unknown encoding %r" % (enc,))
+        self._enc = enc
+        urwid.set_encoding(enc)
+        try:
+            return self.run_impl_enc(case)
+        finally:
+            self._enc = "utf-8"
+            urwid.set_encoding("utf-8")
+
+    def run_impl_enc(self, case):
         from urwid import canvas as C
-        urwid.set_encoding("utf-8")
         res = {"obs": [], "deltas": [], "error": None, "changed": [], "alias": []}
         leaves = []
         try:
@@ -307,13 +363,13 @@ class C02(core.Check):
                             for it in r:
                                 if isinstance(it, int):
                                     if seg:
-                                        items += [["c", c] for c in cells_of_row(seg)]
+                                        items += [["c", c] for c in cells_of_row(seg, self._enc)]
                                         seg = []
                                     items.append(["s", it])
                                 else:
                                     seg.append(it)
                             if seg:
-                                items += [["c", c] for c in cells_of_row(seg)]
+                                items += [["c", c] for c in cells_of_row(seg, self._enc)]
                             rows.append(items)
                         res["deltas"].append(rows)
                     except Exception as e:
@@ -334,7 +390,6 @@ class C02(core.Check):
         for n, (v, s) in enumerate(zip(leaves, leaf_snap)):
             if self.observe(v) != s:
                 res["changed"].append(-(n + 1))
-        urwid.set_encoding("utf-8")
         return res
 
     @staticmethod
@@ -898,9 +953,19 @@ class C02(core.Check):
             dist["has-wide"] = dist.get("has-wide", 0) + 1
 
     # ================================================================= generators
+    _gen_enc = "utf-8"
+
+    def pick_enc(self, rng):
+        """encoding of the next generated case: mostly UTF-8, else one of the double-byte encodings"""
+        self._gen_enc = "utf-8" if rng.random() < 0.8 else rng.choice(DB_ENCODINGS)
+        return self._gen_enc
+
     def gen_leaf(self, rng, cols=None, rows=None, wide_bias=0.3):
+        db = self._gen_enc != "utf-8"
+        narrow, wide = (DB_NARROW, DB_WIDE[self._gen_enc]) if db else (NARROW, WIDE)
+        pa = [0, 0, 1, 2, 3] if rng.random() < 0.85 else [0, 1, 2, 8, 9]
         if rng.random() < 0.12:
-            return {"t": "solid", "cs": 0, "ch": rng.choice("x.-q") + (rng.choice(ZERO) if rng.random() < 0.1 else ""),
+            return {"t": "solid", "cs": 0, "ch": rng.choice("x.-q") + (rng.choice(ZERO) if rng.random() < 0.1 and not db else ""),
                     "cols": cols or rng.randint(1, 5), "rows": rows or rng.randint(1, 3)}
         cols = cols or rng.choice([1, 2, 3, 3, 4, 5, 6])
         rows = rows or rng.choice([1, 1, 2, 2, 3])
@@ -909,22 +974,22 @@ class C02(core.Check):
         for _ in range(rows):
             cells, w = [], 0
             target = cols if not short_ok else rng.randint(max(0, cols - 2), cols)
-            a = rng.choice([0, 0, 1, 2])
+            a = rng.choice(pa[:4])
             c = 0
             while w < target:
                 if rng.random() < 0.4:
-                    a = rng.choice([0, 0, 1, 2, 3])
+                    a = rng.choice(pa)
                 if rng.random() < 0.15:
                     c = rng.choice([0, 0, 1, 2])
                 if w + 2 <= target and rng.random() < wide_bias:
-                    ch = rng.choice(WIDE)
+                    ch = rng.choice(wide)
                     cc = 0 if c == 1 else c
                     w += 2
                 else:
-                    ch = rng.choice(NARROW)
+                    ch = rng.choice(narrow)
                     cc = c
                     w += 1
-                if rng.random() < 0.08:
+                if rng.random() < 0.08 and not db:
                     ch += rng.choice(ZERO)
                 cells.append([a, cc, ch])
             out.append(cells)
@@ -998,6 +1063,9 @@ class C02(core.Check):
                 h = H
             return ["overlay", tt_, bt, rng.randint(0, W - w), rng.randint(0, H - h)], W, H, False
         t, w, h, lf = self.gen_tree(rng, depth - 1, leaves, nenv_dims, comp=True)
+        if k == "fill" and rng.random() < 0.35:
+            # the operand already carries an attribute map
+            t = ["fill", t, [[a, rng.choice([0, 1, 2, 3, 4, 8, 9])] for a in rng.sample([0, 1, 2, 3, 8, 9], rng.randint(1, 3))]]
         if k == "wrap":
             return ["wrap", t], w, h, False
         if k == "padlr":
@@ -1018,7 +1086,14 @@ class C02(core.Check):
             e = rng.randint(1, h - 1)
             return ["trimend", t, e], w, h - e, False
         if k == "fill":
-            m = [[a, rng.choice([1, 2, 3, 4])] for a in rng.sample([0, 1, 2, 3], rng.randint(1, 3))]
+            # keys and targets range over the attributes in use, the default attribute None (0) and the two other
+            # falsy attribute values (8, 9); a fill over a fill gets, half of the time, keys among the targets of
+            # the inner map (the composition of the two maps is then not the union)
+            keys, vals = [0, 1, 2, 3, 4, 8, 9], [0, 0, 1, 2, 3, 4, 8, 9]
+            if t[0] == "fill" and rng.random() < 0.5:
+                keys = sorted({b for _, b in t[2]}) + [rng.choice(keys)]
+                keys = sorted(set(keys))
+            m = [[a, rng.choice(vals)] for a in rng.sample(keys, rng.randint(1, min(3, len(keys))))]
             return ["fill", t, m], w, h, False
         if k == "cursor":
             return ["cursor", t, rng.choice([None, [rng.randrange(w), rng.randrange(h)]])], w, h, False
@@ -1030,12 +1105,19 @@ class C02(core.Check):
         raise core.MachineryError(k)
 
     def random_case(self, rng, depth):
+        enc = self.pick_enc(rng)
         leaves, dims, defs = [], [], []
         for _ in range(rng.choice([1, 1, 1, 2, 3])):
             t, w, h, _ = self.gen_tree(rng, depth, leaves, dims)
             defs.append(t)
             dims.append((w, h))
-        return {"leaves": leaves, "defs": defs, "deltas": []}
+        return self.with_enc({"leaves": leaves, "defs": defs, "deltas": []}, enc)
+
+    @staticmethod
+    def with_enc(case, enc):
+        if enc != "utf-8":
+            case["enc"] = enc
+        return case
 
     def mangle(self, rng, t):
         """malformed stream: perturb one numeric argument somewhere in the tree"""
@@ -1066,6 +1148,7 @@ class C02(core.Check):
     def delta_case(self, rng):
         """pairs of canvases built from shared leaves: same tree rebuilt, one leaf swapped for a same-size one,
         one numeric argument changed, or an unrelated tree"""
+        enc = self.pick_enc(rng)
         leaves, dims = [], []
         t, w, h, _ = self.gen_tree(rng, rng.choice([1, 2, 3]), leaves, dims, comp=True)
         how = rng.choice(["same", "swap", "swap", "tweak", "other", "band", "moved", "moved"])
@@ -1092,7 +1175,7 @@ class C02(core.Check):
             defs = [["join", parts], ["join", perm]]
             if rng.random() < 0.5:
                 defs = [["combine", [defs[0], ["ref", 0]]] if False else defs[0], defs[1]]
-            return {"leaves": leaves, "defs": defs, "deltas": [[1, 0], [0, 1], [0, 0]]}
+            return self.with_enc({"leaves": leaves, "defs": defs, "deltas": [[1, 0], [0, 1], [0, 0]]}, enc)
         t2 = t
         if how == "swap" and leaves:
             i = rng.randrange(len(leaves))
@@ -1145,7 +1228,7 @@ class C02(core.Check):
             defs.append(["combine", [["ref", 0], ["ref", 1]]] if rng.random() < 0.5 else ["join", [[["ref", 0], w], [["ref", 1], w]]])
             defs.append(["combine", [["ref", 1], ["ref", 0]]] if rng.random() < 0.5 else ["join", [[["ref", 0], w], [["ref", 0], w]]])
             deltas += [[2, 3], [3, 2]]
-        return {"leaves": leaves, "defs": defs, "deltas": deltas}
+        return self.with_enc({"leaves": leaves, "defs": defs, "deltas": deltas}, enc)
 
     WLEAF = {"t": "text", "rows": [[[1, 0, WIDE[0]], [0, 0, "a"], [2, 0, WIDE[1]], [0, 0, "b\u0301"]],
                                    [[0, 0, "c"], [3, 0, WIDE[2]], [3, 0, WIDE[0]], [0, 1, "q"]]],
@@ -1192,8 +1275,62 @@ class C02(core.Check):
             for top in range(0, JH - 1):
                 yield {"leaves": [self.WLEAF, self.TLEAF], "defs": [["fill", ["overlay", two, jn, left, top], [[0, 4], [2, 1]]]], "deltas": []}
 
+    def fill_systematic(self):
+        """attribute maps applied twice: every single-entry inner map k -> v followed by every single-entry outer
+        map v -> v2 (v2 ranging over ordinary attributes, the default attribute None and the other falsy values),
+        directly and through an overlay / join whose parts carry different maps"""
+        leaf = {"t": "text", "rows": [[[0, 0, "a"], [1, 0, "b"], [2, 0, WIDE[0]], [3, 0, "c"], [8, 0, "x"], [9, 0, "y"]]],
+                "maxcol": 7, "cursor": None, "mode": 1, "short": False}
+        vals = [0, 1, 4, 8, 9]
+        for k in [0, 1, 2, 8, 9]:
+            for v in vals:
+                for v2 in vals:
+                    inner = ["fill", ["wrap", ["leaf", 1]], [[k, v]]]
+                    yield {"leaves": [leaf], "defs": [["fill", inner, [[v, v2], [3, 2]]]], "deltas": []}
+        for v in vals:
+            for v2 in vals:
+                a = ["fill", ["wrap", ["leaf", 1]], [[1, v], [2, 3]]]
+                b = ["fill", ["wrap", ["leaf", 1]], [[0, v], [3, v2]]]
+                yield {"leaves": [leaf], "defs": [["fill", ["join", [[a, 7], [["leaf", 1], 8], [b, 7]]], [[v, v2], [3, 0]]]], "deltas": []}
+                yield {"leaves": [leaf], "defs": [["fill", ["overlay", ["padlr", a, -2, -2], ["combine", [b, ["leaf", 1]]], 3, 0],
+                                                   [[v, v2], [4, 8]]]], "deltas": []}
+
+    def db_systematic(self):
+        """every window and every overlay offset over rows written in each double-byte encoding, with double-width
+        characters of every trail-byte class of the encoding and narrow ASCII characters from the trail-byte range"""
+        for enc in DB_ENCODINGS:
+            pool = DB_WIDE[enc]
+            for v0 in range(0, len(pool), 5):
+                ws = [pool[(v0 + i) % len(pool)] for i in range(5)]
+                wl = {"t": "text", "rows": [[[1, 0, ws[0]], [0, 0, "a"], [2, 0, ws[1]], [0, 0, "~"]],
+                                            [[0, 0, "@"], [3, 0, ws[2]], [3, 0, ws[3]], [0, 1, "q"]]],
+                      "maxcol": 6, "cursor": [2, 1], "mode": 1, "short": False}
+                tl_ = {"t": "text", "rows": [[[2, 0, ws[4]], [1, 0, "|"]]], "maxcol": 3, "cursor": [0, 0], "mode": 0, "short": False}
+                mk = lambda d: {"leaves": [wl, tl_], "defs": [d], "deltas": [], "enc": enc}
+                W, H = 6, 2
+                for l in range(-W, 2):
+                    for r in range(-W, 2):
+                        if W + min(l, 0) + min(r, 0) > 0:
+                            yield mk(["padlr", ["wrap", ["leaf", 1]], l, r])
+                jn = ["join", [[["leaf", 1], 7], [["combine", [["leaf", 2], ["leaf", 2], ["leaf", 2]]], 3], [["leaf", 2], 4]]]
+                JW, JH = 14, 3
+                for l in range(0, JW):
+                    for w in range(1, JW - l + 1):
+                        if (l + w) % 3 == 0 or w <= 2:
+                            yield mk(["padlr", jn, -l, -(JW - l - w)])
+                for left in range(0, W - 3 + 1):
+                    for top in range(0, H):
+                        yield mk(["overlay", ["wrap", ["leaf", 2]], ["leaf", 1], left, top])
+                for left in range(0, JW - 3 + 1):
+                    for top in range(0, JH):
+                        yield mk(["overlay", ["wrap", ["leaf", 2]], jn, left, top])
+
     def cases(self, rng, tier):
         for c in self.systematic():
+            yield c
+        for c in self.fill_systematic():
+            yield c
+        for c in self.db_systematic():
             yield c
         n = 6000 if tier == "quick" else 60000
         for i in range(n):
